@@ -200,7 +200,22 @@ impl<'tcx> Cx<'tcx> {
         let has_param = ty.has_param();
         let needs_drop = ty.needs_drop(self.tcx, env);
         let dp = if needs_drop { self.drop_runs(ty, 0) } else { 0 };
-        let _ = write!(o, ",\"hp\":{},\"nd\":{},\"dp\":{}}}", has_param, needs_drop, dp);
+        // what the drop glue of the *fields* can run (ignoring the type's own Drop impl)
+        let mut dpf = dp;
+        let mut own_dtor = false;
+        if let ty::Adt(def, args) = ty.kind() {
+            if self.tcx.adt_destructor(def.did()).is_some() && !def.is_union() {
+                own_dtor = true;
+                dpf = 0;
+                for f in def.all_fields() {
+                    let fty = f.ty(self.tcx, args);
+                    if fty.needs_drop(self.tcx, env) {
+                        dpf |= self.drop_runs(fty, 1);
+                    }
+                }
+            }
+        }
+        let _ = write!(o, ",\"hp\":{},\"nd\":{},\"dp\":{},\"dpf\":{},\"dtor\":{}}}", has_param, needs_drop, dp, dpf, own_dtor);
         o
     }
 
@@ -857,7 +872,18 @@ impl rustc_driver::Callbacks for Cb {
                 continue;
             }
             let body = tcx.optimized_mir(did);
-            fns.push(cx.body_json(did, body));
+            let mut j = cx.body_json(did, body);
+            // promoted constants of this body (tiny MIR bodies computing the constant)
+            let proms = tcx.promoted_mir(did);
+            if !proms.is_empty() {
+                let mut pj = Vec::new();
+                for pb in proms.iter() {
+                    pj.push(cx.body_json(did, pb));
+                }
+                j.pop(); // strip trailing '}'
+                j.push_str(&format!(",\"promoted\":[{}]}}", pj.join(",")));
+            }
+            fns.push(j);
         }
         let sess = tcx.sess;
         let cfgs: Vec<String> = sess
